@@ -28,6 +28,9 @@ type layout struct {
 	BigShare  bool   `json:"big_key_share"`
 	Direct    int    `json:"uncompressed_shared"`          // 0 = included directly in inner, 1 = omitted from inner
 	InnerSID  int    `json:"encoded_inner_session_id_len"` // 0 (conforming) or a non-empty id that differs from the outer one
+	NoSNI     bool   `json:"inner_without_server_name,omitempty"`
+	NoALPN    bool   `json:"inner_without_alpn,omitempty"`
+	OuterALPN bool   `json:"outer_has_alpn,omitempty"`
 }
 
 const innerName = "inner.secret.example"
@@ -66,7 +69,16 @@ func buildLayout(key echx.KeyPair, l layout) echx.Spec {
 	}
 	echIdx := slices.IndexFunc(outer, func(e tlsref.Ext) bool { return e.Type == tlsref.ExtECH })
 	// encoded inner list: SNI, ALPN, non-referenced shared (directly, unless omitted), then marker and ECH-inner inserted at their positions
-	inner := []tlsref.Ext{tlsref.SNI(innerName), tlsref.ALPN("h2", "http/1.1")}
+	var inner []tlsref.Ext
+	if !l.NoSNI {
+		inner = append(inner, tlsref.SNI(innerName))
+	}
+	if !l.NoALPN {
+		inner = append(inner, tlsref.ALPN("h2", "http/1.1"))
+	}
+	if l.OuterALPN && l.OuterKind != 2 {
+		outer = append(outer, tlsref.ALPN("outer-proto"))
+	}
 	isRef := map[int]bool{}
 	var types []uint16
 	for _, i := range l.Refs {
@@ -115,7 +127,7 @@ func SelfValidate(key echx.KeyPair) error {
 }
 
 func Run(r *ev.Run) {
-	r.Rule("E1 exhaustive: 3 AEADs x every subset of 6 shared extensions chosen for compression x every position of the ech_outer_extensions marker x 3 positions of the inner ECH extension x 3 outer layouts (ECH first/middle/last, unrelated extensions interleaved) x padding{0,1,31,32} x session-id length{0,1,32} x key_share 36B/1220B x uncompressed shared extensions kept/omitted x session id inside the encoded inner {empty, 7 B, 32 B differing from the outer one}, plus a size family up to 30 kB (outer hello up to 61 kB) (hellos spanning several records, in and out) and small hellos fragmented by the client at 7 cut patterns; each sealed by the reference sender and fed to the real NewConn; forwarded record compared byte for byte with the reference reconstruction. distinct = distinct outer-hello byte strings")
+	r.Rule("E1 exhaustive: 3 AEADs x every subset of 6 shared extensions chosen for compression x every position of the ech_outer_extensions marker x 3 positions of the inner ECH extension x 3 outer layouts (ECH first/middle/last, unrelated extensions interleaved) x padding{0,1,31,32} x session-id length{0,1,32} x key_share 36B/1220B x uncompressed shared extensions kept/omitted x session id inside the encoded inner {empty, 7 B, 32 B differing from the outer one}, plus a size family up to 30 kB (outer hello up to 61 kB) (hellos spanning several records, in and out) small hellos fragmented by the client at 7 cut patterns, reconstructed hellos of exactly k*2^14 and k*2^14 +-1 bytes, and inner hellos without server_name and/or ALPN under outer hellos that carry them; each sealed by the reference sender and fed to the real NewConn; forwarded record compared byte for byte with the reference reconstruction. distinct = distinct outer-hello byte strings")
 	r.Assume("tlsref/hpkeref reference sender is correct (validated on every run against crypto/tls and RFC 9180 vectors)", "outer hellos do not repeat an extension type")
 	key := echx.NewKey("c03", 7, echx.AllSuites, "public.example")
 	if err := SelfValidate(key); err != nil {
@@ -145,7 +157,7 @@ func Run(r *ev.Run) {
 									for _, big := range []bool{false, true} {
 										for direct := 0; direct < 2; direct++ {
 											for _, isid := range []int{0, 7, 32} {
-												cases = append(cases, layout{aead, refs, marker, echAt, ok, p, s, big, direct, isid})
+												cases = append(cases, layout{AEAD: aead, Refs: refs, MarkerAt: marker, ECHInAt: echAt, OuterKind: ok, Padding: p, SID: s, BigShare: big, Direct: direct, InnerSID: isid})
 											}
 										}
 									}
@@ -153,7 +165,7 @@ func Run(r *ev.Run) {
 							}
 						} else {
 							k := len(cases)
-							cases = append(cases, layout{aead, refs, marker, echAt, ok, paddings[k%4], sids[(k/4)%3], k%5 == 0, (k / 7) % 2, []int{0, 0, 7, 32}[(k/3)%4]})
+							cases = append(cases, layout{AEAD: aead, Refs: refs, MarkerAt: marker, ECHInAt: echAt, OuterKind: ok, Padding: paddings[k%4], SID: sids[(k/4)%3], BigShare: k%5 == 0, Direct: (k / 7) % 2, InnerSID: []int{0, 0, 7, 32}[(k/3)%4]})
 						}
 					}
 				}
@@ -197,6 +209,46 @@ func Run(r *ev.Run) {
 			evalStream(r, keys, l, b, tlsref.Fragment(0x0301, msg, cuts...), fmt.Sprintf("fragmented%v", cuts))
 		}
 	}
+	// inner hellos that lack server_name and/or ALPN (both optional in TLS 1.3) while the outer hello carries them: the
+	// reported values are those of the reconstructed hello (empty), never the outer hello's
+	extra := 0
+	for _, aead := range []uint16{1, 2, 3} {
+		for _, refs := range [][]int{nil, {0, 1}, {0, 1, 2, 3, 4, 5}} {
+			for ok := 0; ok < 3; ok++ {
+				for _, v := range [][2]bool{{true, false}, {false, true}, {true, true}} {
+					for _, oa := range []bool{false, true} {
+						l := layout{AEAD: aead, Refs: refs, MarkerAt: 0, ECHInAt: 99, OuterKind: ok, SID: 32, NoSNI: v[0], NoALPN: v[1], OuterALPN: oa}
+						evalBuilt(r, keys, l, buildLayout(key, l).Build(), ":inner-without-sni-or-alpn")
+						extra++
+					}
+				}
+			}
+		}
+	}
+	// reconstructed messages of exactly k*2^14 bytes and one byte either side (the framing of the forwarded hello must not
+	// produce an empty or an over-long record at the boundaries)
+	for _, target := range []int{16383, 16384, 16385, 32767, 32768, 32769, 49152} {
+		l := layout{AEAD: 2, Refs: []int{1, 3}, MarkerAt: 1, ECHInAt: 0, SID: 32}
+		sz := target - 600
+		var b echx.Built
+		for it := 0; it < 3; it++ {
+			s := buildLayout(key, l)
+			s.EncInner = append(s.EncInner, tlsref.Opaque(0x7a7a, sz))
+			b = s.Build()
+			if got := len(b.Expected.Msg()); got != target {
+				sz += target - got
+				continue
+			}
+			break
+		}
+		if len(b.Expected.Msg()) != target {
+			ev.ToolError("c03: cannot build a reconstructed hello of exactly %d bytes (got %d)", target, len(b.Expected.Msg()))
+		}
+		l.Padding = sz
+		evalBuilt(r, keys, l, b, fmt.Sprintf(":exact%d", target))
+		extra++
+	}
+	r.Set("boundary_and_optional_extension_cases", extra)
 	r.Set("states", len(cases))
 	r.Set("traces_validated_against_impl", len(cases))
 }
@@ -238,14 +290,21 @@ func evalStream(r *ev.Run, keys []ech.Key, l layout, b echx.Built, stream []byte
 		if !bytes.Equal(got, wantMsg) || !wellFramed || len(wantMsg) <= 16384 && len(recs) != 1 {
 			r.Violation("reconstruction-differs"+tag+diffKind(append([]byte{0, 0, 0, 0, 0}, got...), append([]byte{0, 0, 0, 0, 0}, wantMsg...)), fmt.Sprintf("forwarded inner hello differs from the reference reconstruction (well framed: %v, %d records):\n got  %x\n want %x", wellFramed, len(recs), got[:min(len(got), 400)], wantMsg[:min(len(wantMsg), 400)]), replay)
 		}
-		if res.ServerName != innerName || !slices.Equal(res.ALPN, []string{"h2", "http/1.1"}) {
-			r.Violation("reported-name-alpn"+tag, fmt.Sprintf("ServerName=%q ALPN=%v, want %q [h2 http/1.1]", res.ServerName, res.ALPN, innerName), replay)
+		wantName, wantALPN := innerName, []string{"h2", "http/1.1"}
+		if l.NoSNI {
+			wantName = "" // the reconstructed hello has no server_name: that, not the outer hello's public name, is its value
+		}
+		if l.NoALPN {
+			wantALPN = nil
+		}
+		if res.ServerName != wantName || !slices.Equal(res.ALPN, wantALPN) {
+			r.Violation("reported-name-alpn"+tag, fmt.Sprintf("ServerName=%q ALPN=%v, want %q %v (the values of the reconstructed hello)", res.ServerName, res.ALPN, wantName, wantALPN), replay)
 		}
 		// a caller that edits the list it was given must not change what the Conn reports afterwards
 		if l := res.Conn.ALPNProtos(); len(l) > 0 {
 			slices.Reverse(l)
 			l[0] = "tampered"
-			if again := res.Conn.ALPNProtos(); !slices.Equal(again, []string{"h2", "http/1.1"}) {
+			if again := res.Conn.ALPNProtos(); !slices.Equal(again, wantALPN) {
 				r.Violation("reported-alpn-aliases-state"+tag, fmt.Sprintf("after the caller modified the slice returned by ALPNProtos(), a second call reports %q", again), replay)
 			}
 		}
